@@ -560,7 +560,9 @@ def main(tier):
                     # async splits: all of them for the first order pair, one async validator otherwise;
                     # the 3x3 shape (19 683 report patterns per order) only with the first order pair
                     first = (vo == vorders[0] and fo == forders[0])
-                    if (nv, nf) == (3, 3) and not first:
+                    if (nv, nf) == (3, 3):
+                        continue        # 19 683 report patterns per order: the sync-only run of this shape is the bound
+                    if nv * nf > 4 and not (first and na == 1):
                         continue
                     if first or na == 1:
                         mtasks.append((nv, nf, vo, fo, False, na))
